@@ -236,6 +236,33 @@ def run_cli_directed(ctx):
         e2e.write_files(d, files)
         for extra in ([], ['--structured', '-o', 'json', '-S', 'none'], ['--structured', '-o', 'junit', '-S', 'none'], ['-o', 'yaml']):
             jobs.append({'args': ['validate', '-a', '-r', 'rules', '-d', 'd.json'] + extra, 'cwd': d}); meta.append(('rules-dir', jobs[-1]['args'], files))
+    # console reporters on CloudFormation-shaped documents: a failing value at depth 1..4 under `Resources` and under sibling
+    # top-level keys that sort before and after "Resources" (the cfn reporter walks every failing path >= "/Resources"; a
+    # path outside a resource hit unreachable!() in get_resource_name - fixed in /repo), resource names with odd characters
+    res = {'b': {'Type': 'AWS::S3::Bucket', 'Properties': {'Size': 1, 'Deep': {'a': {'b': {'c': 1}}}}},
+           'q/r': {'Type': 'AWS::SQS::Queue', 'Properties': {'Size': 1}}, 'notype': {'Properties': {'Size': 1}}}
+    sib = {'a': {'b': {'c': {'d': 1}}}, 'l': [{'x': [1, {'y': 1}]}], 's': 1}
+    cfn_docs = {'siblings': {'Outputs': sib, 'Resources': res, 'Transform': sib, 'resources': sib, 'Zz': sib},
+                'only-after': {'Resources': res, 'Transform': sib},
+                'no-resources': {'Transform': sib, 'Parameters': sib},
+                'resources-not-a-map': {'Resources': [1, 2], 'Transform': sib},
+                'empty-resources': {'Resources': {}, 'Zz': sib}}
+    queries = ['%s.s == 2', '%s.a.b == 2', '%s.a.b.c == 2', '%s.a.b.c.d == 2', '%s.l[0].x[1].y == 2', '%s.l[*].x[*] == 2', '%s.missing.k exists', '%s.a.b.c.missing == 1']
+    for dname, docj in cfn_docs.items():
+        lines = []
+        for top in docj:
+            if top == 'Resources':
+                continue
+            lines += [qq % top for qq in queries]
+        lines += ['Resources.b.Properties.Size == 2', 'Resources.b.Properties.Deep.a.b.c == 2', 'Resources.*.Properties.Size == 2',
+                  'Resources."q/r".Properties.Size == 2', 'Resources.notype.Properties.Size == 2', 'Resources.b.Properties.Deep.a.missing exists',
+                  'Resources[0] == 3']
+        for group in (lines, ) + tuple([l] for l in lines):
+            d = os.path.join(ctx.wd, 'cli%d' % len(jobs))
+            files = {'r.guard': ''.join('rule t%d {\n  %s\n}\n' % (i, l) for i, l in enumerate(group)), 'd.json': json.dumps(docj, indent=1), 'd.yaml': json.dumps(docj)}
+            e2e.write_files(d, files)
+            for extra in ([], ['-S', 'all'], ['-v'], ['-S', 'fail', '-o', 'yaml'], ['-d', 'd.yaml']):
+                jobs.append({'args': ['validate', '-r', 'r.guard', '-d', 'd.json'] + extra, 'cwd': d}); meta.append(('console-cfn %s' % dname, jobs[-1]['args'], files))
     n = 0
     for (what, args, files), (code, so, se) in zip(meta, e2e.run_many(jobs, timeout=30)):
         n += 1
